@@ -195,6 +195,13 @@ func buildResponse(req *http.Request, rp *Reply, n, k int) (*http.Response, stri
 		resp.ContentLength = -1
 		resp.Header.Del("Content-Length")
 	}
+	if rp.NoCL && !rp.Chunked && body != "" {
+		if rp.ZeroLen {
+			resp.ContentLength = 0
+		} else if rp.TEIdentity {
+			resp.TransferEncoding = []string{"identity"}
+		}
+	}
 	return resp, body, nil
 }
 
